@@ -1,5 +1,6 @@
 ---------------------------- MODULE MC_ChunkRecv -----------------------------
 EXTENDS ChunkRecv
 ItemSet == {1, 2, 3, 9}
+ItemSet2 == {1, 2}
 GenLog == LogTransition(view, lastAct', view')
 =============================================================================
